@@ -144,6 +144,7 @@ func cmdCheck(args []string) int {
 	verbose := fs.Bool("v", false, "verbose")
 	noEvidence := fs.Bool("no-evidence", false, "do not write evidence files")
 	timeout := fs.Int("timeout", 0, "per-solver timeout (s)")
+	dev := fs.Bool("dev", false, "development: full portfolio for every obligation, no confirmation")
 	fs.Parse(args)
 	t0 := time.Now()
 	var props []string
@@ -167,11 +168,11 @@ func cmdCheck(args []string) int {
 		}
 	}
 	genS := time.Since(t0).Seconds() - loadS
-	cfg := solveConfig{dir: filepath.Join(os.TempDir(), fmt.Sprintf("govc-%d", os.Getpid())), timeoutS: 10, workers: 12, keepFiles: *keep}
+	cfg := solveConfig{dir: filepath.Join(os.TempDir(), fmt.Sprintf("govc-%d", os.Getpid())), timeoutS: 20, workers: 12, keepFiles: *keep}
 	if *tier == "thorough" {
 		cfg.timeoutS = 60
 		cfg.confirm = true
-	} else if !*updBase {
+	} else if !*updBase && !*dev {
 		cfg.claimed = map[string]bool{}
 		for n := range readBaseline(filepath.Join(*verif, "baseline_obligations.txt")) {
 			cfg.claimed[n] = true
@@ -207,6 +208,7 @@ func cmdDump(args []string) int {
 	verif := fs.String("verif", "/verif", "verif dir")
 	only := fs.String("only", "", "function substring")
 	out := fs.String("out", "/tmp/govc-dump", "output dir")
+	propsF := fs.String("props", "", "properties (use the check selection instead of -only alone)")
 	fs.Parse(args)
 	e, err := loadEngine(*repo, *verif, defaultPatterns, nil)
 	if err != nil {
@@ -215,10 +217,14 @@ func cmdDump(args []string) int {
 	}
 	os.MkdirAll(*out, 0o755)
 	var frs []*FuncResult
-	for k, fn := range e.fns {
-		if strings.Contains(k, *only) && len(fn.Blocks) > 0 {
-			ct := e.contracts[k]
-			frs = append(frs, e.verifyFunc(fn, ct, ct == nil, nil))
+	if *propsF != "" {
+		frs = selectWork(e, strings.Split(*propsF, ","), *only)
+	} else {
+		for k, fn := range e.fns {
+			if strings.Contains(k, *only) && len(fn.Blocks) > 0 {
+				ct := e.contracts[k]
+				frs = append(frs, e.verifyFunc(fn, ct, ct == nil, nil))
+			}
 		}
 	}
 	pre := e.prelude()
@@ -228,8 +234,20 @@ func cmdDump(args []string) int {
 			fmt.Println("note:", fr.Func, nt)
 		}
 		for _, o := range fr.Obls {
+			if len(o.Cases) > 0 {
+				for ci, c := range o.Cases {
+					oc := *o
+					oc.Cases = nil
+					oc.Idx, oc.Guard, oc.Goal, oc.Block = c.Idx, c.Guard, c.Goal, c.Block
+					f := filepath.Join(*out, fmt.Sprintf("%03d_%s_case%d.smt2", n, sanitize(strings.TrimPrefix(o.Name, fr.Func)), ci))
+					os.WriteFile(f, []byte(writeObligation(pre, fr, &oc, true)), 0o644)
+					fmt.Println(f, o.Name)
+				}
+				n++
+				continue
+			}
 			f := filepath.Join(*out, fmt.Sprintf("%03d_%s.smt2", n, sanitize(strings.TrimPrefix(o.Name, fr.Func))))
-			os.WriteFile(f, []byte(writeObligation(pre, fr.Cmds, o, true)), 0o644)
+			os.WriteFile(f, []byte(writeObligation(pre, fr, o, true)), 0o644)
 			fmt.Println(f, o.Name)
 			n++
 		}
